@@ -21,6 +21,46 @@ theorem updEarliest_view (b : Blk) (ts : Option Ts) : updEarliest b ts = Timesta
 theorem setStats_view (b : Blk) (st : Option Stats) : timeView (setStats b st) = timeView b := by
   cases st <;> rfl
 
+/-- no building step touches the earliest time -/
+theorem buildQ_earliest (h : Hints) (g : GQR) (x : Blk) : (buildQ h g x).1.earliest = x.earliest := by
+  unfold buildQ
+  simp only
+  have a1 : ∀ {α : Type} (c : Bool) (o : Option α) (add : Blk → α → Blk × Nat) (y : Blk), (∀ y v, (add y v).1.earliest = y.earliest) →
+      (addOpt c o add y).1.earliest = y.earliest := by
+    intro α c o add y hadd; unfold addOpt; cases c <;> cases o <;> first | rfl | exact hadd y _
+  have fold : ∀ (step : Blk × List Nat → GRR → Blk × List Nat), (∀ acc g', (step acc g').1.earliest = acc.1.earliest) →
+      ∀ (gs : List GRR) (acc : Blk × List Nat), (gs.foldl step acc).1.earliest = acc.1.earliest := by
+    intro step hs gs
+    induction gs with
+    | nil => intro acc; rfl
+    | cons g' gs ih => intro acc; rw [List.foldl_cons, ih, hs]
+  have ql : ∀ y v, (addGenericQlist y v).1.earliest = y.earliest := by
+    intro y v; unfold addGenericQlist; exact fold qlStep (fun _ _ => rfl) v (y, [])
+  have rl : ∀ y v, (addGenericRrlist h y v).1.earliest = y.earliest := by
+    intro y v; unfold addGenericRrlist
+    refine (fold (rrStep h) ?_ v (y, []))
+    intro acc g'
+    unfold rrStep
+    simp only
+    show (addOpt _ _ addNr _).1.earliest = _
+    exact (a1 _ _ addNr _ (fun _ _ => rfl)).trans rfl
+  have a2 : ∀ (c : Bool) (o : Option (List GRR)) (add : Blk → List GRR → Blk × Nat) (y : Blk), (∀ y v, (add y v).1.earliest = y.earliest) →
+      (addSection c o add y).1.earliest = y.earliest := by
+    intro c o add y hadd; unfold addSection; split
+    · exact hadd y _
+    · rfl
+  have sg : ∀ y, (buildSig h g y).1.earliest = y.earliest := by
+    intro y; unfold buildSig
+    split
+    · rfl
+    · simp only
+      split
+      · show (addOpt _ _ addNr _).1.earliest = _
+        rw [a1 _ _ addNr _ (fun _ _ => rfl), a1 _ _ addCt _ (fun _ _ => rfl), a1 _ _ addIp _ (fun _ _ => rfl)]
+      · rw [a1 _ _ addNr _ (fun _ _ => rfl), a1 _ _ addCt _ (fun _ _ => rfl), a1 _ _ addIp _ (fun _ _ => rfl)]
+  rw [a2 _ _ _ _ rl, a2 _ _ _ _ rl, a2 _ _ _ _ rl, a2 _ _ _ _ ql, a2 _ _ _ _ rl, a2 _ _ _ _ rl, a2 _ _ _ _ rl, a2 _ _ _ _ ql,
+    a1 _ _ addNr _ (fun _ _ => rfl), a1 _ _ addNr _ (fun _ _ => rfl), sg, a1 _ _ addIp _ (fun _ _ => rfl)]
+
 /-- `add_question_response_record` as the time model sees it -/
 theorem addQR_view (h : Hints) (g : GQR) (st : Option Stats) (b : Blk) :
     timeView (addQR h g st b) = stepTime (timeView b)
@@ -31,48 +71,7 @@ theorem addQR_view (h : Hints) (g : GQR) (st : Option Stats) (b : Blk) :
   rw [haddQR, setStats_view]
   have hk := (keeps_buildQ h g b0).1
   have hts : (buildQ h g b0).2.ts = keep (on h.qrh QueryResponseHintsMask.time_offset) g.ts := rfl
-  have hearl : (buildQ h g b0).1.earliest = updEarliest b g.ts := by
-    -- no building step touches the earliest time
-    have : ∀ (x : Blk), (buildQ h g x).1.earliest = x.earliest := by
-      intro x
-      unfold buildQ
-      simp only
-      have a1 : ∀ {α : Type} (c : Bool) (o : Option α) (add : Blk → α → Blk × Nat) (y : Blk), (∀ y v, (add y v).1.earliest = y.earliest) →
-          (addOpt c o add y).1.earliest = y.earliest := by
-        intro α c o add y hadd; unfold addOpt; cases c <;> cases o <;> first | rfl | exact hadd y _
-      have fold : ∀ (step : Blk × List Nat → GRR → Blk × List Nat), (∀ acc g', (step acc g').1.earliest = acc.1.earliest) →
-          ∀ (gs : List GRR) (acc : Blk × List Nat), (gs.foldl step acc).1.earliest = acc.1.earliest := by
-        intro step hs gs
-        induction gs with
-        | nil => intro acc; rfl
-        | cons g' gs ih => intro acc; rw [List.foldl_cons, ih, hs]
-      have ql : ∀ y v, (addGenericQlist y v).1.earliest = y.earliest := by
-        intro y v; unfold addGenericQlist; exact fold qlStep (fun _ _ => rfl) v (y, [])
-      have rl : ∀ y v, (addGenericRrlist h y v).1.earliest = y.earliest := by
-        intro y v; unfold addGenericRrlist
-        refine (fold (rrStep h) ?_ v (y, []))
-        intro acc g'
-        unfold rrStep
-        simp only
-        show (addOpt _ _ addNr _).1.earliest = _
-        exact (a1 _ _ addNr _ (fun _ _ => rfl)).trans rfl
-      have a2 : ∀ (c : Bool) (o : Option (List GRR)) (add : Blk → List GRR → Blk × Nat) (y : Blk), (∀ y v, (add y v).1.earliest = y.earliest) →
-          (addSection c o add y).1.earliest = y.earliest := by
-        intro c o add y hadd; unfold addSection; split
-        · exact hadd y _
-        · rfl
-      have sg : ∀ y, (buildSig h g y).1.earliest = y.earliest := by
-        intro y; unfold buildSig
-        split
-        · rfl
-        · simp only
-          split
-          · show (addOpt _ _ addNr _).1.earliest = _
-            rw [a1 _ _ addNr _ (fun _ _ => rfl), a1 _ _ addCt _ (fun _ _ => rfl), a1 _ _ addIp _ (fun _ _ => rfl)]
-          · rw [a1 _ _ addNr _ (fun _ _ => rfl), a1 _ _ addCt _ (fun _ _ => rfl), a1 _ _ addIp _ (fun _ _ => rfl)]
-      rw [a2 _ _ _ _ rl, a2 _ _ _ _ rl, a2 _ _ _ _ rl, a2 _ _ _ _ ql, a2 _ _ _ _ rl, a2 _ _ _ _ rl, a2 _ _ _ _ rl, a2 _ _ _ _ ql,
-        a1 _ _ addNr _ (fun _ _ => rfl), a1 _ _ addNr _ (fun _ _ => rfl), sg, a1 _ _ addIp _ (fun _ _ => rfl)]
-    exact this b0
+  have hearl : (buildQ h g b0).1.earliest = updEarliest b g.ts := buildQ_earliest h g b0
   unfold stepTime
   simp only
   rw [← updEarliest_view]
